@@ -128,7 +128,7 @@ def _resolve_identifier(
     identifier: "Identifier",
     scopes: tuple[Scope, ...],
     visited: set[int] | None = None,
-    inherit_visited: set[int] | None = None,
+    inherit_visited: set[tuple[int, str]] | None = None,
 ) -> tuple[NixExpression, Binding]:
     """Resolve an identifier across the provided scope chain."""
 
@@ -183,11 +183,14 @@ def _resolve_identifier(
         scope_chain: tuple[Scope, ...],
         outer_chain: tuple[Scope, ...],
     ) -> tuple[NixExpression, Binding]:
-        if id(inherit_expr) in inherit_visited:
+        # One clause can inherit several names (`inherit (s) x y;`): passing it
+        # again for another name is not a cycle.
+        visit = (id(inherit_expr), identifier.name)
+        if visit in inherit_visited:
             raise ResolutionError(
                 f"Cyclic inherit detected while resolving {identifier.name}"
             )
-        inherit_visited.add(id(inherit_expr))
+        inherit_visited.add(visit)
 
         from_expression = getattr(inherit_expr, "from_expression", None)
         if from_expression is None:
